@@ -38,6 +38,8 @@ def fn_worker(job):
                 bad("master-exc:%s" % type(e).__name__, "get_master_key(%d-octet password) raised %r" % (n, e))
                 continue
             want = C.password_to_key(alg, pw)
+            if len(res.setdefault("samples", [])) < 2:
+                res["samples"].append({"password_len": n, "digest": "md5" if alg == 1 else "sha1", "master_key": got.hex(), "hashlib": want.hex()})
             if got != want:
                 bad("master:%s" % ("md5" if alg == 1 else "sha1"), "password of %d octets: master key %s, RFC 3414 A.2 gives %s" % (n, got.hex(), want.hex()))
                 continue
@@ -133,6 +135,8 @@ def main():
             if "harness_error" in res:
                 raise runner.HarnessError(res["harness_error"])
             n += res["cases"]
+            for x in res.get("samples", [])[:1]:
+                chk.sample(x)
             for c in res["classes"]:
                 chk.distinct.add(c)
             for b in res["bad"]:
@@ -160,15 +164,14 @@ def main():
         chk.seen(n)
     # (b) session level: key types through MAC / decryption
     knobs = {"sessions": 6, "versions": ["v3"], "auths": ["md5", "sha1"], "privs": [None, "des", "aes"],
-             "ops": ["get", "get_many", "getnext", "refresh"], "beh_weights": [100, 0, 0, 0]}
-    sj = [{"seed": a.seed * 77 + i, "steps": 120 if a.tier == "quick" else 2000, "aspects": ["mac", "priv", "auth_flag", "priv_flag", "panic", "outcome", "deaf"], "knobs": knobs}
-          for i in range(8)]
+             "ops": ["get", "get_many", "getnext", "refresh"], "beh_weights": [100, 0, 0, 0], "key_types": ["password", "password", "master", "localized"]}
+    sj = [{"seed": a.seed * 77 + i, "steps": 120 if a.tier == "quick" else 2000, "aspects": ["mac", "priv", "auth_flag", "priv_flag", "panic", "outcome", "deaf"],
+           "knobs": dict(knobs, shared_pw=("sharedpass%d" % i) if i % 2 else None)} for i in range(8)]
     outs = runner.run_workers("vlib.scenario", "worker", sj, variant="rel", timeout=3000)
     s = c03.collect(chk, outs, "rel", PID)
     st["session_datagrams"] = s["requests"]
     chk.seen(s["requests"])
     chk.extra.update(st)
-    chk.sample({"password_len": 1048577, "digest": "sha1", "master_key": "== hashlib over the first 2^20 octets of the repeated password"})
     chk.floor("derivations", st.get("fn_rel", 0), 500)
     sys.exit(chk.finish())
 
